@@ -343,3 +343,37 @@ def corr_rbrows(ctx, rxns, labels):
         ctx.corr_break("RuleBased.stats", {"n": len(rxns)}, mstats, stats)
     ctx.traces += len(rxns)
     return after, stats, model
+
+
+def corr_impute_two_databases(ctx, vectors):
+    """`SyntheticRuleImputer.single_impute` with BOTH shipped databases interleaved in one process (a result may not
+    depend on which database was used before) vs the model's imputeTokens; returns the real appended tokens"""
+    import copy
+
+    from synrbl.SynRuleImputer.synthetic_rule_imputer import SyntheticRuleImputer
+
+    out = []
+    order = ["rulesManager", "automatedRules", "rulesManager", "automatedRules"]
+    for d in vectors:
+        for dbname in order:
+            db = load_db(dbname)
+            entry = {"Diff_formula": dict(d), "Unbalance": "Products", "reactants": "A", "products": "B"}
+            try:
+                res = with_alarm(1.5, SyntheticRuleImputer.single_impute, entry, copy.deepcopy(db), "all", "ion_priority")
+            except _Timeout:
+                ctx.count("impute:skipped-over-budget")
+                continue
+            toks = res["products"].split(".")[1:] if "new_reaction" in res else None
+            out.append((dbname, d, toks))
+    ops = [{"op": "impute", "db": dbname, "data": dict_pairs(d)} for dbname, d, _ in out]
+    model = ctx.driver(ops)
+    bad = 0
+    for (dbname, d, toks), m in zip(out, model):
+        ctx.case(("impute", dbname, json.dumps(dict_pairs(d))), nontrivial=toks is not None)
+        ctx.count("impute:%s:%s" % (dbname, "tokens" if toks else "none"))
+        if m.get("tokens") != toks:
+            bad += 1
+            if bad <= 3:
+                ctx.corr_break("Imputer(" + dbname + ")", d, m, toks)
+    ctx.traces += len(out)
+    return out
